@@ -607,7 +607,7 @@ class Watch(object):
         if self.mode is None or status != "ok":
             return []
         w, op = self.w, self.op
-        pairs = []   # (old label, new taxon or None, old taxon or None)
+        pairs = []   # (old label, new taxon or None, old taxon or None, copy-within-the-same-namespace?)
         out = []
         if self.mode == "dsread":
             # the document's blocks arrive in the data set, bound to one namespace, carrying the document's labels
@@ -646,7 +646,7 @@ class Watch(object):
                 leaves = [nd.taxon for nd in nodes_preorder(t) if not nd._child_nodes]
                 if len(leaves) != len(labs):
                     return [("b", "read tree has %d leaves for %d labels" % (len(leaves), len(labs)))]
-                pairs += [(lab, x, None) for lab, x in zip(labs, leaves)]
+                pairs += [(lab, x, None, False) for lab, x in zip(labs, leaves)]
             target = tl.taxon_namespace
         else:
             target = self.target
@@ -675,7 +675,7 @@ class Watch(object):
                         if len(cands) != 1:
                             out.append(("b", "the sequence of %r is carried by %d taxa afterwards" % (x.label, len(cands))))
                         else:
-                            pairs.append((x.label, cands[0], x))
+                            pairs.append((x.label, cands[0], x, kind == "mclone" and w.mats[op[1]].taxon_namespace is self.target))
                     continue
                 if len(new) != len(old):
                     out.append(("b", "tree changed its number of nodes"))
@@ -684,7 +684,7 @@ class Watch(object):
                     if (a is None) != (b is None):
                         out.append(("b", "a node %s its taxon" % ("lost" if b is None else "gained")))
                     elif a is not None:
-                        pairs.append((a.label, b, a))
+                        pairs.append((a.label, b, a, kind == "clone1" and obj.taxon_namespace is self.target))
             if any(kind == "clone" for kind, _, _ in self.before):
                 tl = w.lists[op[1]] if op[0] not in ("add", "lclone") else w.lists[-1]
                 srcs = [b for b in self.before if b[0] == "clone"]
@@ -703,15 +703,17 @@ class Watch(object):
                         if (a is None) != (b is None):
                             out.append(("b", "a copied node %s its taxon" % ("lost" if b is None else "gained")))
                         elif a is not None:
-                            pairs.append((a.label, b, a))
+                            pairs.append((a.label, b, a, src.taxon_namespace is self.target))
             if target is None and op[0] == "dsunify":
                 target = w.dss[op[1]].attached_taxon_namespace
         if target is None:
             return out
         kf = keyf(target.is_case_sensitive)
-        for lab, new, old in pairs:
+        for lab, new, old, ident in pairs:
             if new is None:
                 continue
+            if ident and new is not old:
+                out.append(("b", "a copy within one namespace replaced the taxon object of label %r" % lab))
             if not any(new is y for y in target._taxa):
                 out.append(("b", "item with label %r sits on a taxon outside the target namespace" % lab))
             if self.mode == "same":
@@ -720,19 +722,32 @@ class Watch(object):
             elif kf(new.label) != kf(lab):
                 out.append(("b", "item with label %r ended up on taxon %r" % (lab, new.label)))
         if self.mode in ("unify", "read"):
-            for (l1, n1, o1), (l2, n2, o2) in itertools.combinations([p for p in pairs if p[1] is not None], 2):
+            for (l1, n1, o1, i1), (l2, n2, o2, i2) in itertools.combinations([p for p in pairs if p[1] is not None and not p[3]], 2):
                 if kf(l1) != kf(l2) and n1 is n2:
                     out.append(("b", "different labels %r and %r were merged onto one taxon" % (l1, l2)))
                     break
-                if kf(l1) == kf(l2) and n1 is not n2 and not self.dup_before:
-                    out.append(("b", "equal labels %r and %r ended up on two taxa (target namespace had no duplicate labels)" % (l1, l2)))
+                if kf(l1) == kf(l2) and n1 is not n2:
+                    # also when the namespace itself holds several taxa with that label: one pass puts equal labels on ONE taxon
+                    out.append(("b", "equal labels %r and %r ended up on two taxa%s" % (
+                        l1, l2, " (the target namespace holds duplicate labels)" if self.dup_before else "")))
                     break
+            if self.mode == "unify":
+                # a label-unifying pass resolves every item by label: it sits on the namespace's FIRST member with its label
+                # (new members are only ever appended when no member matched, so "first" is the same before and after)
+                for lab, new, old, ident in pairs:
+                    if new is None or ident:
+                        continue
+                    first = next((y for y in target._taxa if kf(y.label) == kf(lab)), None)
+                    if first is not None and new is not first:
+                        out.append(("b", "label-unifying pass left the item with label %r on a taxon that is not the namespace's first "
+                                         "member with that label (equal labels of this collection are spread over several taxa)" % lab))
+                        break
             if not self.dup_before and has_dup_keys(target):
                 out.append(("b", "a label was duplicated in the target namespace (it had no duplicate labels before)"))
         elif self.mode == "fresh":
             # unify_taxa_by_label=False: distinct foreign taxa stay distinct
             seen = {}
-            for lab, new, old in pairs:
+            for lab, new, old, ident in pairs:
                 if id(old) in seen and seen[id(old)] is not new:
                     out.append(("b", "one taxon object was split onto two taxa"))
                 seen[id(old)] = new
